@@ -16,6 +16,10 @@ fn usage() -> ! {
 }
 
 fn main() {
+    if std::env::var_os("VCHECK_AS_YASH3").is_some() {
+        // behave exactly like the project's `yash3` binary (real main, real glue, real OS)
+        yash_cli::main();
+    }
     let args: Vec<String> = std::env::args().collect();
     if args.len() < 2 {
         usage();
